@@ -417,12 +417,15 @@ def inject(rng, desc, kind):
         hpc = g["submitter_params"]["hpc_config"]["hpc"]
         if "walltime" not in hpc:
             return None
-        hpc["walltime"] = rng.choice(ODD_WALLS)
+        hpc["walltime"] = rng.choice(ODD_WALLS).strip()      # submitter_params stays in pydantic's normal form
         return d
     if kind == "empty_command":
         if not jobs:
             return None
-        rng.choice(jobs)["command"] = rng.choice(["", " ", "\t\n"])
+        j = rng.choice(jobs)
+        j["command"] = rng.choice(["", " ", "\t\n"])
+        # (with use_multi_node_manager the `command` property is never empty and add_job accepts it)
+        j.pop("use_multi_node_manager", None)
         return d
     raise ValueError(kind)
 
